@@ -375,6 +375,13 @@ impl<Writer> MuxerBuilder<Writer> {
         // present.  Future releases may relax this to allow audio‑only
         // streams.
         let (codec, width, height, framerate) = self.video.ok_or(MuxerError::MissingVideoConfig)?;
+        // The visual sample entry stores width and height in 16 bits.
+        if width > u16::MAX as u32 || height > u16::MAX as u32 {
+            return Err(MuxerError::Io(std::io::Error::new(
+                std::io::ErrorKind::InvalidInput,
+                "video width and height must not exceed 65535",
+            )));
+        }
         let video_track = VideoTrackConfig {
             codec,
             width,
